@@ -73,7 +73,7 @@ func okPt(c geom.Coord) string { return fmt.Sprintf("(ok (%s %s))", hexF(c[0]), 
 
 func genC14(r *Rng, e *Emitter, n int) {
 	for i := 0; i < n; i++ {
-		stride := 2 + r.Intn(3)
+		stride := 2 + r.Intn(5)
 		l := layoutForStride(stride)
 		offx := float64(r.Intn(2000001) - 1000000)
 		offy := float64(r.Intn(2000001) - 1000000)
